@@ -2276,8 +2276,9 @@ class UTPM(Ring, RawAlgorithmsMixIn):
             U0 = numpy.triu(lu, 0)
 
             # allocate temporary storage
-            L0inv = numpy.linalg.inv(L0)
-            U0inv = numpy.linalg.inv(U0)
+            if D > 1:
+                L0inv = numpy.linalg.inv(L0)
+                U0inv = numpy.linalg.inv(U0)
             dF    = numpy.zeros((N,N),dtype=numpy.promote_types(A.data.dtype, float))
 
             for d in range(1,D):
@@ -2318,8 +2319,9 @@ class UTPM(Ring, RawAlgorithmsMixIn):
             U.data[0,p] = u
 
             # allocate temporary storage
-            L0inv = numpy.linalg.inv(L.data[0,p])
-            U0inv = numpy.linalg.inv(U.data[0,p])
+            if D > 1:
+                L0inv = numpy.linalg.inv(L.data[0,p])
+                U0inv = numpy.linalg.inv(U.data[0,p])
             dF    = numpy.zeros((N,N),dtype=numpy.promote_types(A.data.dtype, float))
 
             for d in range(1,D):
@@ -2374,8 +2376,9 @@ class UTPM(Ring, RawAlgorithmsMixIn):
             PIV.data[0,p] = piv
 
             # allocate temporary storage
-            L0inv = numpy.linalg.inv(L.data[0,p])
-            U0inv = numpy.linalg.inv(U.data[0,p])
+            if D > 1:
+                L0inv = numpy.linalg.inv(L.data[0,p])
+                U0inv = numpy.linalg.inv(U.data[0,p])
             dF    = numpy.zeros((N,N),dtype=numpy.promote_types(A.data.dtype, float))
 
             for d in range(1,D):
